@@ -78,6 +78,25 @@ def full_traversal_driver(ctx, cfg, a, body, owners, cl, owner_local, finisher_b
             continue
         if cl.classify(d, body) != "foreign":
             continue
+        # index-driven form: the driver folds directly over `lo..hi` == the owner's claimed range and the closure moves out slot i of the owner's
+        # storage per index, disowning it (ownership.indexed_traversal states the conditions)
+        from ..ownership import range_driver, indexed_traversal
+        if range_driver(d) is not None:
+            for cv in [t for x in d.args for t in find_in(x, lambda t: isinstance(t, tuple) and len(t) == 3 and t[0] == "A" and isinstance(t[1], tuple) and t[1][0] == "closure")]:
+                cb = db.by_path.get(cv[1][1])
+                if cb is None:
+                    continue
+                ca = ctx.analysis(cfg, cb["key"])
+                role, ok, det, info = check_closure_protocol(ca, cl)
+                if role not in ("consumer", "builder") or info["normal_problems"] or not info.get("indexed"):
+                    continue
+                bases, _why = indexed_traversal(a, d, {"ops": cv[2]}, info, role, owners)
+                if bases is None:
+                    continue
+                store_ok = all(bse == ("field", ("local", owner_local), (o["array"],)) for bse in bases) if not o["array_is_ref"] else False
+                pos_ok = any((cv[2][k][0] == "P" and cv[2][k][1][0] == "field" and cv[2][k][1][1] == ("local", owner_local) and cv[2][k][1][2][0] in o["pos"]) for k in info["positions"] if k < len(cv[2]))
+                if store_ok and pos_ok:
+                    return d, cb["key"]
         slices = []
         closures = []
         for x in d.args:
